@@ -23,6 +23,7 @@ import (
 	"sync"
 	"sync/atomic"
 	"testing"
+	"time"
 
 	"github.com/tailscale/setec/audit"
 	"github.com/tailscale/setec/client/setec"
@@ -233,8 +234,9 @@ func TestC08(t *testing.T) {
 	}
 	if r.Only < 0 {
 		concurrentReplies(t, r, dir)
+		sharedConditional(t, r, dir)
 	}
-	r.Require("gate_violations", "accepted_requests", "accepted_200", "accepted_304", "accepted_403", "accepted_404", "accepted_other_error", "unidentified_callers", "client_mapping_checks", "audit_principals_checked", "grey_bodies", "concurrent_replies_checked")
+	r.Require("gate_violations", "accepted_requests", "accepted_200", "accepted_304", "accepted_403", "accepted_404", "accepted_other_error", "unidentified_callers", "client_mapping_checks", "audit_principals_checked", "grey_bodies", "concurrent_replies_checked", "overlapping_conditional_gets")
 	r.Rule("requests = product of 7 endpoints x 7 methods x 6 content types x 5 browser-header values x 17 WhoIs scripts x 13 body kinds, enumerated completely for /api/get and /api/put on every database state and sampled (seeded) for the other endpoints, all from ONE source address per state so that identity must be re-derived per request. Distinct = (endpoint, first violated gate or outcome class, status)")
 }
 
@@ -631,4 +633,127 @@ func concurrentReplies(t *testing.T, r *evid.Run, dir string) {
 	wg.Wait()
 	r.Eval(1)
 	r.Distinct("concurrent replies over loopback")
+}
+
+type stallSink struct {
+	mu   sync.Mutex
+	buf  bytes.Buffer
+	wait time.Duration
+}
+
+func (s *stallSink) Write(p []byte) (int, error) {
+	time.Sleep(s.wait) // the caller is inside the database's critical section: others pile up behind it
+	s.mu.Lock()
+	defer s.mu.Unlock()
+	return s.buf.Write(p)
+}
+
+// sharedConditional: callers with different grants poll the SAME secret with the SAME known version at the
+// same moment (what every client does after a rotation), while the audit sink is slow so that the requests
+// overlap inside the server. Each reply must be decided by the grant of the caller it goes to, and every
+// request must be recorded under its own principal.
+func sharedConditional(t *testing.T, r *evid.Run, dir string) {
+	snk := &stallSink{wait: 300 * time.Microsecond}
+	d, err := db.Open(filepath.Join(dir, "shared.db"), realdb.DummyKey("c08s"), audit.New(snk))
+	if err != nil {
+		t.Fatal(err)
+	}
+	su := realdb.Super()
+	rng := r.Rand(4711)
+	v1, v2 := marker(rng), marker(rng)
+	d.Put(su, "shared/rotating", v1)
+	d.Put(su, "shared/rotating", v2)
+	d.Activate(su, "shared/rotating", 2)
+	srv, err := httpdrv.New(d)
+	if err != nil {
+		t.Fatal(err)
+	}
+	const P = 8
+	allowed := func(i int) bool { return i%2 == 0 }
+	for i := 0; i < P; i++ {
+		pat := "other/*"
+		if allowed(i) {
+			pat = "shared/*"
+		}
+		srv.SetWho(fmt.Sprintf("100.70.0.%d:4000", i+1), httpdrv.Who{Login: fmt.Sprintf("poller%d@verif", i), Node: fmt.Sprintf("poller%d", i),
+			Rules: []refmodel.Rule{{Actions: []string{"get"}, Patterns: []string{pat}}}})
+	}
+	rounds := r.N(120, 1200)
+	sent := make([]int, P)
+	var bad atomic.Int32
+	for k := 0; k < rounds; k++ {
+		known := uint32(1 + k%2) // 1: stale, the reply is the value; 2: current, the reply is 304
+		var wg sync.WaitGroup
+		var gate atomic.Bool
+		for i := 0; i < P; i++ {
+			if known != 2 || !allowed(i) {
+				sent[i]++ // an unchanged conditional get by an entitled caller delivers nothing and is, by design, not recorded
+			}
+			wg.Add(1)
+			go func(i int) {
+				defer wg.Done()
+				for !gate.Load() {
+				}
+				op := ops.Op{Kind: ops.GetCond, Name: "shared/rotating", Version: known}
+				path, body := httpdrv.Request(op)
+				rep := srv.Raw("POST", path, fmt.Sprintf("100.70.0.%d:4000", i+1), httpdrv.GoodHeaders, body)
+				r.Count("overlapping_conditional_gets", 1)
+				want := 403
+				if allowed(i) {
+					want = 200
+					if known == 2 {
+						want = 304
+					}
+				}
+				if rep.Status != want && bad.Add(1) <= 3 {
+					r.Violation("reply-decided-by-another-callers-grant", -1, fmt.Sprintf("round %d: poller %d (allowed=%t) asked for shared/rotating knowing v%d together with %d others and got status %d, want %d", k, i, allowed(i), known, P-1, rep.Status, want), nil)
+				}
+				if rep.Status != 200 && leaks(rep.Body, [][]byte{v1, v2}) && bad.Add(1) <= 3 {
+					r.Violation("non-200-reply-carries-secret", -1, fmt.Sprintf("round %d: poller %d got status %d with secret bytes in the body", k, i, rep.Status), nil)
+				}
+				if rep.Status == 200 {
+					var sv api.SecretValue
+					if err := json.Unmarshal(rep.Body, &sv); err != nil || !bytes.Equal(sv.Value, v2) || sv.Version != 2 {
+						if bad.Add(1) <= 3 {
+							r.Violation("reply-not-the-json-result", -1, fmt.Sprintf("round %d: poller %d got 200 with %q", k, i, rep.Body), nil)
+						}
+					}
+				}
+			}(i)
+		}
+		gate.Store(true)
+		wg.Wait()
+	}
+	// the audit trail: one record per request, under the requester's own identity, with the right verdict
+	got := map[string][2]int{}
+	dec := json.NewDecoder(bytes.NewReader(snk.buf.Bytes()))
+	for {
+		var e audit.Entry
+		if err := dec.Decode(&e); err != nil {
+			break
+		}
+		if e.Secret != "shared/rotating" || e.Action != "get" || e.Principal.User == "super@verif" {
+			continue
+		}
+		c := got[e.Principal.User]
+		if e.Authorized {
+			c[0]++
+		} else {
+			c[1]++
+		}
+		got[e.Principal.User] = c
+	}
+	for i := 0; i < P; i++ {
+		r.Count("audit_principals_checked", 1)
+		c := got[fmt.Sprintf("poller%d@verif", i)]
+		want := [2]int{sent[i], 0}
+		if !allowed(i) {
+			want = [2]int{0, sent[i]}
+		}
+		if c != want {
+			r.Violation("audit-record-missing-or-under-another-identity", -1, fmt.Sprintf("poller %d (allowed=%t) made %d overlapping conditional gets that deliver a value or are refused; the audit log has %d authorized and %d denied records under its identity", i, allowed(i), sent[i], c[0], c[1]), nil)
+		}
+	}
+	r.Eval(1)
+	r.Distinct("overlapping conditional gets from differently entitled callers")
 }
